@@ -561,6 +561,14 @@ fn handle_panic(rt: &InstRt, ctx: &Ctx, o: &mut Oracle, p: Box<dyn std::any::Any
             rt.idx,
             format!("next() panicked after the iterator had yielded an Err: {}", msg),
         );
+    } else if o.done_seen {
+        // "repeated next() calls after completion": what they return is not judged, but a
+        // caller polling a finished iterator again must not be brought down
+        ctx.violate(
+            "panic-after-completion",
+            rt.idx,
+            format!("the iterator had completed (returned None) and panicked when polled again: {}", msg),
+        );
     } else if o.ended_by.is_none() {
         o.ended_by = Some(EndedBy::PanicNoFault);
     }
